@@ -112,6 +112,17 @@ def chain_programs():
                f"if {a} {{ push(obs, 10); }} else if {b} {{ push(obs, 20); }}\n"
                "0\n")
         out.append(("if-chain", src))
+    # the value a branch / arm yields, for every kind of final statement of its body
+    finals = ["7", "x = 5", "x = 5;", "a[0] = 9", "let z = 1;", "{ 8 }", "f(3)", "x = x + 1; x", "push(obs, 100); x = 6", "if x > 0 { x = 4 }", "", "null", "x == 1"]
+    for fin in finals:
+        for cond in ("true", "false"):
+            src = ("let obs = [];\nlet x = 1;\nlet a = [0];\nfn f(n) { n + 1 }\n"
+                   f"push(obs, if {cond} {{ {fin} }} else {{ 3 }});\npush(obs, x);\n"
+                   f"push(obs, if !{cond} {{ 3 }} else {{ {fin} }});\n"
+                   f"push(obs, if false {{ 1 }} else if {cond} {{ {fin} }} else {{ 3 }});\n"
+                   f"push(obs, match x {{ 1 => {{ {fin} }}, _ => {{ {fin} }} }});\n"
+                   f"let r = if {cond} {{ {fin} }};\npush(obs, r);\npush(obs, a[0]);\nx\n")
+            out.append(("branch-final", src))
     return out
 
 
